@@ -32,6 +32,7 @@ def run(ctx):
     ctx.rule(readers)
     ctx.rule(wds)
     ctx.rule(wave_shape)
+    ctx.rule(sphere_container)
 
 
 def _chain(f):
@@ -316,3 +317,11 @@ def wave_shape(ctx, R="R-C11-wave-shape"):
     ctx.check("ifn_channels>1:" in txt, R, f, f.node, "mono data stays 1-D")
     fin = [t for t in f.body_nodes() if isinstance(t, ast.Try)]
     ctx.check(len(fin) == 1 and fin[0].finalbody and "wave_file.close()" in astq.text(fin[0].finalbody[0]), R, f, f.node, "the wave file is closed on every path")
+
+
+def sphere_container(ctx):
+    """NIST SPHERE is one of C11's containers: its read loop must neither drop nor
+    mis-account samples (rules shared with C12)."""
+    from . import c12
+
+    c12.reads(ctx, R="R-C11-sphere-reads", R2="R-C11-sphere-bytes")
